@@ -151,6 +151,13 @@ def template_def(rng, prof):
                    retry={"when": None, "count": lit(rng.randint(1, 2)), "delay": rng.choice([None, lit(1)])}),
                  T("z")]
         feat = "tpl_retry_count_join"
+    elif k == 16:  # a long item list under a small concurrency: room for an item that straggles
+        n = rng.randint(4, 6)
+        tasks = [T("w", [tr(["z"], fn("succeeded"), [["r", fn("result")]])], input=[["it", fn("item")]],
+                   **{"with": {"items": lit(list(range(1, n + 1))), "key": None,
+                               "concurrency": rng.choice([lit(2), lit(2), lit(3)])}}),
+                 T("z")]
+        feat = "tpl_items_long"
     else:         # two publish-only transitions and a noop ending
         tasks = [T("a", [tr(["b", "c"])]), T("b", [tr(["noop"], None, [["x", lit(1)]])]),
                  T("c", [tr(["continue"], None, [["v1", fn("result")]]), tr(["continue"], None, [["v2", lit(7)]])])]
